@@ -106,3 +106,7 @@ UNITS += shared("C05", "contracts.c04", "ArgumentParser.parse_env")
 
 from contracts.check_type import typehint_call_unit  # noqa: E402
 UNITS.append(typehint_call_unit("C05"))
+
+
+from contracts.any_units import is_action_value_list_unit, parse_argv_item_unit  # noqa: E402
+UNITS += [parse_argv_item_unit("C05"), is_action_value_list_unit("C05")]
